@@ -6,6 +6,11 @@ c  position brackets (primary + fallback) contain a sign change for every mu in 
 d  c_n from first principles (axis Taylor coefficients of the exact potential through the library's own local map)
 e  _J_hess_H2: same characteristic polynomial as the Jacobian at the point
 f  closed-form normal-form matrix: C^T J C = J and H2 o C diagonal (Groebner reduction modulo the defining relations)
+
+a (added)  the point constructors admit the whole interval (0, 1/2] down to the smallest catalogue ratio
+c (added)  the bracketed solver returns only at an exact zero or when the bracket is below the x-tolerance (CFG exit rule)
+e (added)  L4/L5: J*Hess(H2) equals the linearised field at the point entry by entry; the frequency selection code is interpreted
+           on the exact spectrum at the smallest catalogue ratio and at Earth-Moon (tolerances below the frequency gaps)
 """
 from __future__ import annotations
 
